@@ -72,7 +72,7 @@ def affinity_obligations():
                     if c == ("cmp", ("Is",), (A(pattr), fx.C(None))):
                         pnone = b
                 if ok:
-                    want = ("ite", ("cmp", ("Is",), (A(pattr), fx.C(None))), ("callres", None, "dict", (), ()), A(pattr))
+                    want = ("ite", ("cmp", ("Is",), (A(pattr), fx.C(None))), ("dict", ()), A(pattr))       # dict() and {} are one term
                     ok = len(star) == 1 and fx.strip(star[0]) == want
                 kinds.setdefault(f"named -> {fname}(X, metric=self.{attr}, **(self.{pattr} or {{}}))", []).append(ok)
             else:
